@@ -3,6 +3,7 @@ package main
 
 import (
 	_ "verif/internal/c01"
+	_ "verif/internal/c07"
 	_ "verif/internal/c12"
 	_ "verif/internal/c17"
 	_ "verif/internal/c18"
